@@ -264,8 +264,11 @@ func (s *Store[H]) deleteParallel(ctx context.Context, from, to uint64) (uint64,
 // DeleteRange deletes headers in the range [from:to) from the store.
 // It intelligently updates head and/or tail pointers based on what range is being deleted.
 func (s *Store[H]) DeleteRange(ctx context.Context, from, to uint64) error {
-	// ensure all the pending headers are synchronized
-	err := s.Sync(ctx)
+	// ensure all the pending headers are synchronized and written on disk: the head and tail pointers
+	// below are written directly, and must never end up on disk ahead of headers that are still
+	// waiting in the pending batch (a crash would leave a gap under the head), nor lag behind because
+	// the batch they were waiting for got deleted
+	err := s.syncFlush(ctx)
 	if err != nil {
 		return err
 	}
